@@ -293,8 +293,16 @@ pub fn test_case(c: &Case) -> Verdict {
                                 f3 = true;
                             }
                             // an undone addition that itself contained the sentinel leaves the sentinel's parent list
-                            // pointing into the undone structure; the next fill inherits those links
-                            if holes(st) > 0 {
+                            // pointing into the undone structure. Over the explored histories the unchanged tree only
+                            // goes wrong through that route when the history is more than one simple undo: the undone
+                            // stage node is added again, or two or more additions were undone (in one or several
+                            // restores), or the bare sentinel was added as a stage and undone. A single undone
+                            // sentinel-containing addition followed by different additions serializes correctly on the
+                            // unchanged tree, so a wrong result there is not attributed to the finding.
+                            let restores = c.ops.iter().filter(|o| matches!(o, Op::Restore(_))).count();
+                            if holes(st) > 0
+                                && (retained.contains(u) || restores >= 2 || undone.len() >= 2 || undone.iter().any(|x| c.stages[*x] == St::S))
+                            {
                                 f3 = true;
                             }
                         }
